@@ -17,11 +17,12 @@ theorem DirRel.congr {oS oR oS' oR' : Obj} {fwd bwd fwd' bwd' : List Msg} {w r w
     (h3 : oR'.cap = oR.cap) (h4 : oR'.threshold = oR.threshold) (h5 : oR'.senderAlive = oR.senderAlive)
     (h6 : oR'.rxq = oR.rxq) (h7 : oR'.buf = oR.buf) (h8 : oR'.recvdSince = oR.recvdSince)
     (h9 : fwd'.filterMap toItem = fwd.filterMap toItem) (h10 : bwd'.filterMap ackOf = bwd.filterMap ackOf)
-    (h11 : w' = w) (h12 : r' = r) (h13 : eof' = eof) : DirRel oS' oR' fwd' bwd' w' r' eof' l :=
+    (h11 : w' = w) (h12 : r' = r) (h13 : eof' = eof) (h14 : oR'.rxOpen = oR.rxOpen) :
+    DirRel oS' oR' fwd' bwd' w' r' eof' l :=
   ⟨h.inv, by rw [h3]; exact h.hW, by rw [h3]; exact h.hWb, by rw [h4]; exact h.hth, by rw [h1]; exact h.hcredit,
    by rw [h2]; exact h.hfin, by rw [h9]; exact h.hwire, by rw [h5]; exact h.halive, by rw [h6]; exact h.hrxq,
    by rw [h7]; exact h.hbuf, by rw [h8]; exact h.hsince, by rw [h10]; exact h.hacks, by rw [h11]; exact h.hacc,
-   by rw [h12]; exact h.hdel, by rw [h13]; exact h.heof⟩
+   by rw [h12]; exact h.hdel, by rw [h13]; exact h.heof, by rw [h14, h5]; exact h.hrx⟩
 
 @[simp] theorem toItem_push (y : Nat) (d : Bytes) : toItem (.frame (.push y d)) = some (.push d) := rfl
 @[simp] theorem toItem_finish (y : Nat) : toItem (.frame (.finish y)) = some .fin := rfl
@@ -46,7 +47,7 @@ theorem DirRel.write {oS oR : Obj} {fwd bwd : List Msg} {w r : Bytes} {eof : Boo
     simp [Link.step, h.hfin, hf, hde, h.hcredit, hc]
   rw [hs] at hinv ⊢
   exact ⟨hinv, h.hW, h.hWb, h.hth, by simp [h.hcredit], h.hfin, by simp [h.hwire], h.halive, h.hrxq, h.hbuf, h.hsince,
-    h.hacks, by simp [h.hacc], h.hdel, h.heof⟩
+    h.hacks, by simp [h.hacc], h.hdel, h.heof, h.hrx⟩
 
 /-- A first shutdown is `Link.step .shutdown`. -/
 theorem DirRel.shutdown {oS oR : Obj} {fwd bwd : List Msg} {w r : Bytes} {eof : Bool} {l : Link.St} (y : Nat)
@@ -57,7 +58,7 @@ theorem DirRel.shutdown {oS oR : Obj} {fwd bwd : List Msg} {w r : Bytes} {eof : 
     simp [Link.step, h.hfin, hf]
   rw [hs] at hinv ⊢
   exact ⟨hinv, h.hW, h.hWb, h.hth, h.hcredit, rfl, by simp [h.hwire], h.halive, h.hrxq, h.hbuf, h.hsince,
-    h.hacks, h.hacc, h.hdel, h.heof⟩
+    h.hacks, h.hacc, h.hdel, h.heof, h.hrx⟩
 
 /-- An `Acknowledge` reaching the sender is `Link.step .deliverAck`. -/
 theorem DirRel.deliverAck {oS oR : Obj} {fwd bwd : List Msg} {w r : Bytes} {eof : Bool} {l : Link.St} (y n : Nat)
@@ -75,7 +76,7 @@ theorem DirRel.deliverAck {oS oR : Obj} {fwd bwd : List Msg} {w r : Bytes} {eof 
     omega
   have hlt : oS.credit + n < 4294967296 := by
     rw [← h.hcredit]; have := h.hWb; rw [← h.hW] at this; omega
-  refine ⟨hinv, h.hW, h.hWb, h.hth, ?_, ?_, h.hwire, h.halive, h.hrxq, h.hbuf, h.hsince, rfl, h.hacc, h.hdel, h.heof⟩
+  refine ⟨hinv, h.hW, h.hWb, h.hth, ?_, ?_, h.hwire, h.halive, h.hrxq, h.hbuf, h.hsince, rfl, h.hacc, h.hdel, h.heof, h.hrx⟩
   · show l.credit + n = (oS.credit + n) % 4294967296
     rw [Nat.mod_eq_of_lt hlt, h.hcredit]
   · show l.sFin = (oS.wake).finishSent
@@ -93,7 +94,7 @@ theorem DirRel.readBuf {oS oR : Obj} {fwd bwd : List Msg} {w r : Bytes} {eof : B
     simp [Link.step, Link.fill_one _ _ h.inv.hne_rxq, hbe]
   rw [hs] at hinv ⊢
   exact ⟨hinv, h.hW, h.hWb, h.hth, h.hcredit, h.hfin, h.hwire, h.halive, h.hrxq, by simp [h.hbuf], h.hsince,
-    h.hacks, h.hacc, by simp [h.hdel, h.hbuf], h.heof⟩
+    h.hacks, h.hacc, by simp [h.hdel, h.hbuf], h.heof, h.hrx⟩
 
 /-- A read that takes the next frame from the queue (and acknowledges at the threshold). -/
 theorem DirRel.readFrame {oS oR : Obj} {fwd bwd : List Msg} {w r : Bytes} {eof : Bool} {l : Link.St} (y n : Nat)
@@ -117,7 +118,7 @@ theorem DirRel.readFrame {oS oR : Obj} {fwd bwd : List Msg} {w r : Bytes} {eof :
       simp [Link.step, Link.fill_one _ _ h.inv.hne_rxq, hbe, hq', Link.countFrame, ht']
     rw [hs] at hinv ⊢
     exact ⟨hinv, h.hW, h.hWb, h.hth, h.hcredit, h.hfin, h.hwire, h.halive, rfl, rfl, rfl,
-      by simp [h.hacks, h.hsince], h.hacc, by simp [h.hdel], h.heof⟩
+      by simp [h.hacks, h.hsince], h.hacc, by simp [h.hdel], h.heof, h.hrx⟩
   · intro ht
     have ht' : ¬ l.since + 1 ≥ l.th := by rw [h.hsince, h.hth]; exact ht
     have hs : (Link.step l (.read n)).1 =
@@ -126,7 +127,7 @@ theorem DirRel.readFrame {oS oR : Obj} {fwd bwd : List Msg} {w r : Bytes} {eof :
       simp [Link.step, Link.fill_one _ _ h.inv.hne_rxq, hbe, hq', Link.countFrame, ht']
     rw [hs] at hinv ⊢
     exact ⟨hinv, h.hW, h.hWb, h.hth, h.hcredit, h.hfin, h.hwire, h.halive, rfl, rfl, by simp [h.hsince],
-      h.hacks, h.hacc, by simp [h.hdel], h.heof⟩
+      h.hacks, h.hacc, by simp [h.hdel], h.heof, h.hrx⟩
 
 /-- A read that finds nothing buffered after the peer ended: end-of-stream. -/
 theorem DirRel.readEof {oS oR : Obj} {fwd bwd : List Msg} {w r : Bytes} {eof : Bool} {l : Link.St} (n : Nat)
@@ -139,7 +140,7 @@ theorem DirRel.readEof {oS oR : Obj} {fwd bwd : List Msg} {w r : Bytes} {eof : B
     simp [Link.step, Link.fill_one _ _ h.inv.hne_rxq, hbe, hq', h.halive, ha]
   rw [hs] at hinv ⊢
   exact ⟨hinv, h.hW, h.hWb, h.hth, h.hcredit, h.hfin, h.hwire, h.halive, h.hrxq, h.hbuf, h.hsince,
-    h.hacks, h.hacc, h.hdel, rfl⟩
+    h.hacks, h.hacc, h.hdel, rfl, fun _ => ha⟩
 
 /-- A `Push` reaching the receiver is `Link.step .deliver`; under the invariant there is room. -/
 theorem DirRel.deliverPush {oS oR : Obj} {fwd bwd : List Msg} {w r : Bytes} {eof : Bool} {l : Link.St} (y : Nat) (d : Bytes)
@@ -162,7 +163,7 @@ theorem DirRel.deliverPush {oS oR : Obj} {fwd bwd : List Msg} {w r : Bytes} {eof
   rw [hs] at hinv ⊢
   refine ⟨by rw [← h.halive]; exact hal, by rw [← h.hrxq, ← h.hW]; exact hroom, ?_⟩
   exact ⟨hinv, h.hW, h.hWb, h.hth, h.hcredit, h.hfin, rfl, h.halive, by simp [h.hrxq], h.hbuf, h.hsince,
-    h.hacks, h.hacc, h.hdel, h.heof⟩
+    h.hacks, h.hacc, h.hdel, h.heof, h.hrx⟩
 
 /-- A `Finish` reaching the receiver is `Link.step .deliver`. -/
 theorem DirRel.deliverFinish {oS oR : Obj} {fwd bwd : List Msg} {w r : Bytes} {eof : Bool} {l : Link.St} (y : Nat)
@@ -177,6 +178,6 @@ theorem DirRel.deliverFinish {oS oR : Obj} {fwd bwd : List Msg} {w r : Bytes} {e
     simp [Link.step, hw]
   rw [hs] at hinv ⊢
   exact ⟨hinv, h.hW, h.hWb, h.hth, h.hcredit, h.hfin, rfl, rfl, h.hrxq, h.hbuf, h.hsince,
-    h.hacks, h.hacc, h.hdel, h.heof⟩
+    h.hacks, h.hacc, h.hdel, h.heof, fun _ => rfl⟩
 
 end Penguin.Pair
